@@ -35,7 +35,7 @@ OldDecls == UNION {
         d \in {D("list", <<"a">>, <<>>, ""), ToNew, D("map", <<"a">>, <<"z">>, "")}},
     {O("old", "string", <<>>, NoBound, NoBound, VStr("b"), d) :
         d \in {NoDep, D("all", <<>>, <<>>, ""), D("list", <<"a">>, <<>>, ""), ToNew, D("map", <<"a">>, <<"b">>, ""),
-               D("name", <<>>, <<>>, "gone")}},
+               D("name", <<>>, <<>>, "gone"), D("name", <<>>, <<>>, "old")}},
     {O("old", "integer", <<>>, 0, 9, VInt(3), d) :
         d \in {NoDep, D("all", <<>>, <<>>, ""), ToNew, D("map", <<"0">>, <<"1">>, ""), D("map", <<"0">>, <<"77">>, "")}}}
 
@@ -50,6 +50,7 @@ NewDecls == {
     O("new", "string", <<>>, NoBound, NoBound, VStr("n"), NoDep),
     O("new", "string", <<>>, NoBound, NoBound, VStr("n"), D("name", <<>>, <<>>, "third")),
     O("new", "string", <<>>, NoBound, NoBound, VStr("n"), D("list", <<"a">>, <<>>, "")),
+    O("new", "string", <<>>, NoBound, NoBound, VStr("n"), D("name", <<>>, <<>>, "old")),      \* a cycle when old names new
     O("new", "integer", <<>>, 0, 9, VInt(5), NoDep)}
 
 Third == O("third", "string", <<>>, NoBound, NoBound, VStr("t"), D("map", <<"a">>, <<"A">>, ""))
@@ -99,12 +100,20 @@ Rev(cl) == [i \in 1..Len(cl) |-> cl[Len(cl) + 1 - i]]
 \* every value ever held - under either reading, after every assignment - satisfies its option's declaration
 ValuesInDomain == \A n \in Names(c.tab) : ValOK(DeclOf(Lookup(c.tab, n)), pv[n]) /\ ValOK(DeclOf(Lookup(c.tab, n)), nv[n])
 \* the protected sequential reading ends in the values of the declarative reading
-ProtectedEqualsDeclarative == Done => \A n \in Names(c.tab) : AllowedFinal(c.tab, c.cl, n) = {pv[n]}
+ProtectedEqualsDeclarative == Done => \A n \in Names(c.tab) : StrictFinal(c.tab, c.cl, n) = {pv[n]}
+\* both operational readings end inside the allowed set, which has at most two values: the explicit one and the
+\* forwarded one (one deprecated option per replacement in this model), and exactly one when nothing is overtaken
+BothReadingsAllowed == Done => \A n \in Names(c.tab) :
+    /\ pv[n] \in AllowedFinal(c.tab, c.cl, n) /\ nv[n] \in AllowedFinal(c.tab, c.cl, n)
+    /\ Cardinality(AllowedFinal(c.tab, c.cl, n)) <= 2
+    /\ AllowedFinal(c.tab, c.cl, n) \subseteq {pv[n]} \cup CutValues(c.tab, c.cl, n)
+    /\ (CutValues(c.tab, c.cl, n) = {} => AllowedFinal(c.tab, c.cl, n) = {pv[n]})
 \* ... and so the result of a command does not depend on the order of its -D arguments
 OrderOfAssignmentsIrrelevant ==
     Done => /\ CmdOK(c.tab, Rev(c.cl))
             /\ RunProtected(c.tab, Rev(c.cl), Defaults(c.tab), 1) = pv
-            /\ \A n \in Names(c.tab) : AllowedFinal(c.tab, Rev(c.cl), n) = AllowedFinal(c.tab, c.cl, n)
+            /\ \A n \in Names(c.tab) : /\ AllowedFinal(c.tab, Rev(c.cl), n) = AllowedFinal(c.tab, c.cl, n)
+                                         /\ StrictFinal(c.tab, Rev(c.cl), n) = StrictFinal(c.tab, c.cl, n)
 \* the naive reading differs exactly where an explicit assignment is overtaken by a forwarded value
 NaiveDiffersOnlyWhenOvertaken == Done => \A n \in Names(c.tab) : (nv[n] # pv[n]) = Overtaken(c.tab, c.cl, n)
 \* rejection does not depend on the order either
